@@ -106,7 +106,11 @@ void ed_norm_sim(ed_t *r, const ed_t *t, int n) {
 #endif
 			if (!ed_is_infty(t[i])) {
 				fp_copy(r[i]->z, a[i]);
+			} else {
+				fp_copy(r[i]->z, t[i]->z);
 			}
+			/* The result may be a separate array, take the system from the input. */
+			r[i]->coord = t[i]->coord;
 		}
 
 #if ED_ADD == PROJC || ED_ADD == EXTND || !defined(STRIP)
